@@ -170,9 +170,9 @@ def audit_axioms(pid: str, props_modules, theorems: list[str]) -> dict[str, list
         lock.close()
     out = p.stdout + p.stderr
     res: dict[str, list[str]] = {}
-    for m in re.finditer(r"'([^']+)' depends on axioms: \[([^\]]*)\]", out, re.S):
+    for m in re.finditer(r"^'(.+)' depends on axioms: \[([^\]]*)\]", out, re.M):
         res[m.group(1)] = [a.strip() for a in m.group(2).replace("\n", " ").split(",") if a.strip()]
-    for m in re.finditer(r"'([^']+)' does not depend on any axioms", out):
+    for m in re.finditer(r"^'(.+)' does not depend on any axioms", out, re.M):
         res[m.group(1)] = []
     if p.returncode != 0 and not res:
         raise InfraError("axiom audit failed to run:\n" + out[-2000:])
